@@ -293,7 +293,11 @@ class PBES2HSAlgModel(JWEKeyEncryption):
         assert key is not None
 
         self.check_key_type(key)
-        kek = self.compute_derived_key(key.get_op_key("deriveKey"), p2s, p2c)
+        try:
+            kek = self.compute_derived_key(key.get_op_key("deriveKey"), p2s, p2c)
+        except OverflowError:
+            # negative, or too big for an iteration count
+            raise DecodeError('Invalid "p2c" value')
         assert recipient.encrypted_key is not None
         return self.key_wrapping.unwrap_cek(recipient.encrypted_key, kek)
 
